@@ -805,6 +805,7 @@ type hist struct {
 	nFlush   int
 	nImages  int
 	failed   bool
+	noImages bool   // bulk phase of a directed scenario: no crash images (the FS operations are still traced)
 	scripted bool   // a directed scenario: no random deaths
 	forceDie string // die once at the first image whose previous operation has this kind (inside the next op that has one)
 }
@@ -835,6 +836,9 @@ func (h *hist) newSession(root string) {
 }
 
 func (h *hist) takeImage(extra bool) {
+	if h.noImages {
+		return
+	}
 	h.imgSeq++
 	p := filepath.Join(h.base, fmt.Sprintf("img-%d", h.imgSeq))
 	if err := copyDir(h.root, p); err != nil {
@@ -1671,7 +1675,7 @@ func runCase(c *core.Ctx, i int, maxOps int) error {
 }
 
 // nScenarios directed histories run first in every seed (values are still drawn from the case's PRNG).
-const nScenarios = 4
+const nScenarios = 5
 
 func (h *hist) randKVs(n int) [][2]int64 {
 	var kvs [][2]int64
@@ -1701,6 +1705,7 @@ func (h *hist) flushNow(name string, withSeq bool) {
 //	1  a flusher that has created its table but not committed while a compaction of the SAME family
 //	   runs (merge + deferred deleteObsoleteFiles), then commits; close; reopen
 //	3  a flush whose table close fails with an I/O error (must commit nothing), more flushes, compaction, reopen
+//	4  a session whose manifest grows beyond the entry reader's 256 KB buffer, then close / reopen
 //	2  an open dies after a snapshot record of the new manifest (CURRENT not switched); the next open
 //	   re-uses the same MANIFEST number (the file exists, with content); then two more opens
 func runScenario(h *hist, which int) {
@@ -1751,6 +1756,33 @@ func runScenario(h *hist, which int) {
 				h.doFlushCommit("10")
 			}
 		})
+		closeS()
+		open()
+	case 4:
+		// a live manifest larger than the 256 KB read buffer of the entry reader: 150 commits whose records
+		// carry 150 sequence entries each (≈ 1.9 KB per record), written without crash images; then close,
+		// reopen (crash images again: every one replays the big manifest), one more flush, close, reopen
+		h.c.Branch("scenario:manifest-larger-than-read-buffer")
+		h.noImages = true
+		for r := 0; r < 150 && !h.failed; r++ {
+			var seqs [][2]int64
+			for l := int64(1); l <= 150; l++ {
+				seqs = append(seqs, [2]int64{l, int64(1)<<61 + h.rng.Int63n(int64(1)<<60)})
+			}
+			step(func() { h.doFlushStart("10", seqs, nil) })
+			step(func() { h.doFlushCommit("10") })
+		}
+		h.noImages = false
+		if !h.failed {
+			if cur, err := os.ReadFile(filepath.Join(h.root, version.VerifC01CurrentFileName())); err == nil {
+				if fi, err := os.Stat(filepath.Join(h.root, string(cur))); err == nil && fi.Size() > 262144 {
+					h.c.Branch("region:live-manifest>256KB")
+				}
+			}
+		}
+		closeS()
+		open()
+		step(func() { h.flushNow("10", false) })
 		closeS()
 		open()
 	case 3:
